@@ -41,6 +41,11 @@ CHECKS.update({
    text="Settings.context is executed symbolically from /repo's AST: for EVERY subset of the seven settings (None-ness symbolic), arbitrary values, an arbitrary with-body (havoc of all settings) and both exits (normal, exception incl. BaseException): inside the context exactly the named settings hold the given values; on leaving, every named setting has its entry value and every unnamed setting keeps whatever the body left (never touched); no KeyError on any path. Nesting to any depth follows because an inner context is part of the outer body (lemma). Static: every read of a setting in the package happens inside a function body at call time and is never cached in an attribute/global/default argument. A bounded run-time stand-in (B) exercises nestings to depth 4 with exceptions at every level.",
    note="A-CTX: contextlib.contextmanager / generator semantics (code after yield runs once; a body exception is raised at the yield; only finally/except blocks run). A-PY. Solvers and executor soundness."),
 })
+CHECKS.update({
+ "C19": dict(cat="proof", design="8/C19", tech="loop-invariant VCs (4 nested loops, skolem block/rule/conclusion/variable) from the real AST of Engine.is_ready; static matching of every raise site in process()'s call tree; bounded run-time stand-in",
+   text="Engine.is_ready is verified for engines of ANY size: if it returns True with an initially empty error list then, for an arbitrary output variable, block, rule and conclusion, the defuzzifier is present, the aggregation operator is present when the defuzzifier is integral, the conjunction (disjunction) operator is present when ' and ' (' or ') occurs in a rule's antecedent text, and the implication operator is present when a loaded rule concludes on an output variable with an integral defuzzifier; the result is exactly `no errors`; nothing is written. Static composition: every raise statement in the call tree of Engine.process is matched to the is_ready clause, premise or proved callee precondition that excludes it (a new or unguarded raise site fails). The pinned tree failed one obligation (missing disjunction not reported) - a genuine defect repaired by fix commit 8fae7d7. Bounded (B): generated engines with every subset of operators removed x input forms, ready => process() completes.",
+   note=A_WIRE + " H-WS (hypothesis of the property): rules are written with whitespace-separated tokens, i.e. the expression tree has an and/or node iff ' and '/' or ' occurs in the antecedent text. One residual raise site is NOT excluded by readiness and is listed: WeightedDefuzzifier.infer_type TypeError for mixed term kinds."),
+})
 TODO = {}
 def main():
     props = [json.loads(l) for l in open(os.path.join(HERE, "properties.jsonl"))]
